@@ -210,3 +210,38 @@ class FixtureWorld:
 
     def action(self, name):
         return self.D["actions"][name]
+
+
+def concurrent(ctx, thunks, p_den=60, forced_max=4):
+    """run the thunks (callables returning a comparable value) on real threads under the tape-driven pre-emptive
+    scheduler (one baton, pre-emption at line granularity inside the repository's package).
+    -> list of ('ok', value) | ('exc', class name), in thunk order."""
+    import os
+    from sim import sched as schedmod
+    sc = ctx.s("sched")
+    pkg = os.path.join(os.environ.get("VERIF_REPO", "/repo"), "pddl_plus_parser")
+    forced = sorted({1 + sc.draw(3000) for _ in range(sc.draw(forced_max + 1))})
+    S = schedmod.Sched(sc, pkg, p_num=1, p_den=p_den, forced=forced)
+    results = [None] * len(thunks)
+
+    def mk(i, fn):
+        def body():
+            try:
+                results[i] = ("ok", fn())
+            except Violation as v:
+                results[i] = ("violation", v)
+            except Exception as e:
+                results[i] = ("exc", type(e).__name__)
+        return body
+
+    for i, fn in enumerate(thunks):
+        S.spawn(f"client{i}", mk(i, fn))
+    S.run()
+    ctx.faults["preemptions"] += S.switches
+    ctx.probes["traced_lines"] += S.lines
+    ctx.probes["concurrent_scenarios"] += 1
+    ctx.log("schedule", tuple(S.schedule[:100]))
+    for r in results:
+        if r and r[0] == "violation":
+            raise r[1]
+    return results, S.switches
